@@ -4,17 +4,23 @@ use super::*;
 
 leaf_roundtrip!(q_c01_leaf_rt_bool, 6, 2, ValueKind::Bool, |v: bool| Value::Bool(v), Some(2));
 leaf_roundtrip!(q_c01_leaf_rt_u8, 6, 2, ValueKind::U8, |v: u8| Value::U8(v), Some(2));
+#[cfg(not(verif_quick))]
 leaf_roundtrip!(q_c01_leaf_rt_i8, 6, 2, ValueKind::I8, |v: i8| Value::I8(v), Some(2));
 leaf_roundtrip!(q_c01_leaf_rt_u16, 6, 4, ValueKind::U16, |v: u16| Value::U16(v), Some(1 + varint_len(v as u64, 2)));
+#[cfg(not(verif_quick))]
 leaf_roundtrip!(q_c01_leaf_rt_i16, 6, 4, ValueKind::I16, |v: i16| Value::I16(v), Some(1 + varint_len(zz64(v as i64) & 0xffff, 2)));
 leaf_roundtrip!(q_c01_leaf_rt_u32, 8, 6, ValueKind::U32, |v: u32| Value::U32(v), Some(1 + varint_len(v as u64, 4)));
+#[cfg(not(verif_quick))]
 leaf_roundtrip!(q_c01_leaf_rt_i32, 8, 6, ValueKind::I32, |v: i32| Value::I32(v), Some(1 + varint_len(zz64(v as i64) & 0xffff_ffff, 4)));
+#[cfg(not(verif_quick))]
 leaf_roundtrip!(q_c01_leaf_rt_u64, 12, 10, ValueKind::U64, |v: u64| Value::U64(v), Some(1 + varint_len(v, 8)));
 leaf_roundtrip!(q_c01_leaf_rt_i64, 12, 10, ValueKind::I64, |v: i64| Value::I64(v), Some(1 + varint_len(zz64(v), 8)));
+#[cfg(not(verif_quick))]
 leaf_roundtrip!(q_c01_leaf_rt_f32, 8, 5, ValueKind::F32, |v: u32| Value::F32(f32::from_bits(v)), Some(5));
 leaf_roundtrip!(q_c01_leaf_rt_f64, 12, 9, ValueKind::F64, |v: u64| Value::F64(f64::from_bits(v)), Some(9));
 leaf_roundtrip!(q_c01_leaf_rt_uuid, 20, 17, ValueKind::Uuid, |v: [u8; 16]| Value::Uuid(Uuid::from_bytes(v)), Some(17));
 leaf_roundtrip!(q_c01_leaf_rt_sender, 20, 17, ValueKind::Sender, |v: [u8; 16]| Value::Sender(ChannelCookie(Uuid::from_bytes(v))), Some(17));
+#[cfg(not(verif_quick))]
 leaf_roundtrip!(q_c01_leaf_rt_receiver, 20, 17, ValueKind::Receiver, |v: [u8; 16]| Value::Receiver(ChannelCookie(Uuid::from_bytes(v))), Some(17));
 
 #[kani::proof]
@@ -62,6 +68,7 @@ fn string_roundtrip(content: &[u8]) {
     std::mem::forget(r);
 }
 
+#[cfg(not(verif_quick))]
 #[kani::proof]
 #[kani::unwind(8)]
 fn q_c01_leaf_rt_string_ascii() {
@@ -70,6 +77,7 @@ fn q_c01_leaf_rt_string_ascii() {
     string_roundtrip(&[a[0], a[1]]);
 }
 
+#[cfg(not(verif_quick))]
 #[kani::proof]
 #[kani::unwind(8)]
 fn q_c01_leaf_rt_string_empty_and_multibyte() {
